@@ -25,6 +25,9 @@ structure Cfg where
   samples    : Nat       -- aac.SamplesPerFrame
   getCopies  : Bool      -- segmentfile.go: memorySegmentFile.get hands out a private copy
   m3u8Copies : Bool      -- playlist.go: M3u8 returns a private copy of the pooled buffer
+  tokenEscaped : Bool    -- playlist.go: M3u8 writes url.QueryEscape(token) into the segment URIs
+  firstFromFrame : Bool  -- segmentgenerator.go: the first segment starts at its first frame's PTS (not at 0)
+  minFragment : Nat      -- config/global.go: HlsFragment() never returns less
 deriving Repr
 
 /-- hls.segment together with what has been written to its file (as TS frames) -/
@@ -51,6 +54,7 @@ structure Gen where
   afCache  : Option ACache
   basePts  : Int                 -- aacJitter.basePts
   nbSamples : Int                -- aacJitter.nbSamples
+  startPending : Bool            -- sg.startPending: the first segment has no start time yet
   -- ghosts
   deleted  : List Seg            -- removed from the playlist by clearSegments (file deleted)
   dropped  : List Seg            -- closed with duration < 100 ms: file deleted, number reused
@@ -65,22 +69,29 @@ def segmentOpen (g : Gen) (startPts : Int) (byAudio : Bool) : Gen :=
              current := some { seq := g.seqNo + 1, start := startPts, dur := 0, seqHdr := false,
                                byAudio := byAudio, frames := [] } }
 
-/-- NewSegmentGenerator -/
-def init : Gen :=
+/-- NewSegmentGenerator (`firstFromFrame` = the source sets `sg.startPending = true`: fix 79c2429) -/
+def initWith (firstFromFrame : Bool) : Gen :=
   let g : Gen := { seqNo := 0, current := none, playlist := [], afCache := none, basePts := 0,
-                   nbSamples := 0, deleted := [], dropped := [] }
+                   nbSamples := 0, startPending := false, deleted := [], dropped := [] }
   let g := segmentOpen g 0 false
-  { g with current := g.current.map fun s => { s with seqHdr := true } }
+  { g with current := g.current.map (fun s => { s with seqHdr := true }), startPending := firstFromFrame }
+
+/-- the generator as the regenerated source creates it -/
+def initOf (c : Cfg) : Gen := initWith c.firstFromFrame
 
 /-- segment.updateDuration -/
 def updateDuration (s : Seg) (pts : Int) : Seg :=
   if pts < s.start then s else { s with dur := pts - s.start }
 
-/-- flushFrame: `none` = nil dereference of sg.current -/
+/-- flushFrame: `none` = nil dereference of sg.current.  While `startPending`, the open (first)
+    segment takes its start time from this frame. -/
 def flushFrame (g : Gen) (f : Frame) : Option Gen :=
   match g.current with
   | none => none
-  | some s => some { g with current := some { updateDuration s f.pts with frames := s.frames ++ [f] } }
+  | some s =>
+    let s := if g.startPending then { s with start := f.pts } else s
+    some { g with startPending := false,
+                  current := some { updateDuration s f.pts with frames := s.frames ++ [f] } }
 
 /-- flushAudioCache -/
 def flushAudioCache (g : Gen) : Option Gen :=
@@ -183,6 +194,16 @@ def targetDuration (l : List Seg) : Nat :=
 def segUri (path : List Char) (seq : Nat) : List Char :=
   "/streams".toList ++ path ++ ['/'] ++ natChars seq ++ ".ts".toList
 
+/-- Go's url.QueryEscape on a string of bytes (chars below 256): letters, digits and `-_.~`
+    stand for themselves, a space becomes `+`, every other byte `%XX` (upper-case hex) -/
+def hexUpper (n : Nat) : Char := if n < 10 then Char.ofNat (n + 48) else Char.ofNat (n + 55)
+def queryKeep (c : Char) : Bool := c.isAlphanum || c = '-' || c = '_' || c = '.' || c = '~'
+def queryEscape : List Char → List Char
+  | [] => []
+  | c :: r =>
+    (if queryKeep c then [c] else if c = ' ' then ['+']
+     else ['%', hexUpper (c.toNat / 16 % 16), hexUpper (c.toNat % 16)]) ++ queryEscape r
+
 /-- Playlist.M3u8: `none` = "playlist is not enough" -/
 def m3u8 (c : Cfg) (path : List Char) (pl : List Seg) (token : List Char) : Option (List Char) :=
   if pl.length < c.remain then none else
@@ -194,7 +215,7 @@ def m3u8 (c : Cfg) (path : List Char) (pl : List Seg) (token : List Char) : Opti
     let entry (s : Seg) : List Char :=
       (if s.seqHdr then "#EXT-X-DISCONTINUITY\n".toList else [])
       ++ "#EXTINF:".toList ++ fmtDur s.dur ++ ",\n".toList ++ segUri path s.seq
-      ++ (if token.isEmpty then [] else "?token=".toList ++ token) ++ ['\n']
+      ++ (if token.isEmpty then [] else "?token=".toList ++ (if c.tokenEscaped then queryEscape token else token)) ++ ['\n']
     some (head ++ (pl.map entry).flatten)
 
 /-- Playlist.Segment: the finished bytes of a listed segment -/
